@@ -35,6 +35,23 @@ def run(ctx):
         if isinstance(st, ast.Assign) and isinstance(st.targets[0], ast.Tuple) and len(st.targets[0].elts) == 2 and hdr and is_name(st.value, hdr):
             idv = st.targets[0].elts[0].id
     ctx.require(idv is not None, 'RemoteServer.run: header unpacking not found')
+    # further locals of run by role: the context payload, the reply, the looked-up context, the context being deleted
+    PAY = RES = CTXV = CUR = None
+    for st in walk_local(f.node):
+        if isinstance(st, ast.Assign) and isinstance(st.targets[0], ast.Name) and isinstance(st.value, ast.Call):
+            v, t = st.value, st.targets[0].id
+            if last_attr(v) == 'recv_msg' and len(v.args) == 1 and t != hdr:
+                PAY = t
+            if last_attr(v) == 'get' and receiver(v) == 'self.contexts':
+                CTXV = t
+            if last_attr(v) == 'pop' and receiver(v) == 'self.contexts':
+                CUR = t
+    for c in calls_in(f.node):
+        if last_attr(c) == 'send_msg' and len(c.args) >= 2 and isinstance(c.args[1], ast.Name) and is_name(c.args[0], cli):
+            RES = c.args[1].id
+    ctx.require(PAY is not None, 'RemoteServer.run: the local receiving the context payload was not found')
+    # a role nobody plays makes the rules about it fail as findings (not as an analysis error)
+    RES, CTXV, CUR = RES or '<no-reply-variable>', CTXV or '<no-context-lookup>', CUR or '<no-context-removal>'
     # ---------------------------------------------------------------- R1 accesses keyed by the client id
     n_acc = 0
     for n in walk_local(f.node):
@@ -94,32 +111,32 @@ def run(ctx):
                   'although nobody deleted it - its workers die and the id can be registered again', where=loc(f, removal))
     # duplicate -> False reply
     dup = [st for st in walk_local(f.node) if isinstance(st, ast.If) and norm(st.test) == f'{idv} in self.contexts']
-    ok = bool(dup) and any(isinstance(x, ast.Assign) and is_name(x.targets[0], 'result') and isinstance(x.value, ast.Constant) and x.value.value is False for x in dup[0].body)
+    ok = bool(dup) and any(isinstance(x, ast.Assign) and is_name(x.targets[0], RES) and isinstance(x.value, ast.Constant) and x.value.value is False for x in dup[0].body)
     ctx.check('R1', 'registering an existing id answers False', ok, 'RemoteServer.run', 'duplicate-not-refused', 'a duplicate registration is not refused', where=loc(f, dup[0]) if dup else loc(f, f.node))
     # unknown context for a worker request -> skipped
-    unk = [st for st in walk_local(f.node) if isinstance(st, ast.If) and norm(st.test) in ('ctx is None', 'not ctx')]
+    unk = [st for st in walk_local(f.node) if isinstance(st, ast.If) and norm(st.test) in (f'{CTXV} is None', f'not {CTXV}')]
     ok = bool(unk) and any(isinstance(x, ast.Continue) for x in unk[0].body)
     ctx.check('R1', 'a worker request naming an unknown context is skipped', ok, 'RemoteServer.run', 'unknown-context-not-skipped',
               'a worker request naming an unknown context is not skipped: ctx.call on None kills the server', where=loc(f, f.node))
     # every context operation is answered
     g = ctx.an.cfg(f, RS)
-    op_recv = [n for n in g.nodes if n.stmt is not None and n.part == 'post' and isinstance(n.stmt, ast.Assign) and is_name(n.stmt.targets[0], 'context')]
-    reply = {n.id for n in g.nodes if n.stmt is not None and n.part == 'eval' and any(last_attr(c) == 'send_msg' and len(c.args) >= 2 and is_name(c.args[1], 'result') for c in n.calls())}
+    op_recv = [n for n in g.nodes if n.stmt is not None and n.part == 'post' and isinstance(n.stmt, ast.Assign) and is_name(n.stmt.targets[0], PAY)]
+    reply = {n.id for n in g.nodes if n.stmt is not None and n.part == 'eval' and any(last_attr(c) == 'send_msg' and len(c.args) >= 2 and is_name(c.args[1], RES) for c in n.calls())}
     heads = [n for n in g.nodes if n.kind == 'join' and isinstance(n.stmt, ast.While)]
     p = g.find_path(op_recv, lambda n: n in heads, edge_ok=lambda e: is_flow(e) and e.kind != 'exc', node_ok=lambda n: n.id not in reply)
     ctx.check('R1', 'every context operation is answered with `result`', bool(op_recv) and bool(reply) and p is None, 'RemoteServer.run', 'context-op-unanswered',
               'a context operation can complete without the client being answered: the client blocks in recv_msg', where=loc(f, f.node), path=path_str(p or []))
-    rinit = [st for st in walk_local(f.node) if isinstance(st, ast.Assign) and is_name(st.targets[0], 'result') and isinstance(st.value, ast.Constant) and st.value.value is True]
+    rinit = [st for st in walk_local(f.node) if isinstance(st, ast.Assign) and is_name(st.targets[0], RES) and isinstance(st.value, ast.Constant) and st.value.value is True]
     ctx.check('R1', 'the reply defaults to True', bool(rinit), 'RemoteServer.run', 'reply-default', 'the reply of a context operation has no default', where=loc(f, f.node))
 
     # ---------------------------------------------------------------- R3 delete chain
-    dele = [st for st in walk_local(f.node) if isinstance(st, ast.If) and norm(st.test) == 'context is None']
+    dele = [st for st in walk_local(f.node) if isinstance(st, ast.If) and norm(st.test) == f'{PAY} is None']
     ok = False
     if dele:
         calls = [(last_attr(c), receiver(c)) for x in dele[0].body for c in calls_in(x)]
-        names = [m for m, r in calls if r == 'current']
+        names = [m for m, r in calls if r == CUR]
         ok = 'wait' in names and 'terminate' in names and names.index('wait') < names.index('terminate')
-        w = [c for x in dele[0].body for c in calls_in(x) if last_attr(c) == 'wait' and receiver(c) == 'current']
+        w = [c for x in dele[0].body for c in calls_in(x) if last_attr(c) == 'wait' and receiver(c) == CUR]
         ok = ok and bool(w) and any(k.arg == 'timeout' for k in w[0].keywords)
     ctx.check('R3', 'deleting a context waits (bounded) for it and then terminates it', ok, 'RemoteServer.run', 'delete-chain',
               'deleting a context does not end its helper (wait then terminate): its workers keep running and the id cannot be reused safely', where=loc(f, dele[0]) if dele else loc(f, f.node))
@@ -139,15 +156,19 @@ def run(ctx):
     RW = P.cls('RemoteWorker')
     gs = RW.methods['__getstate__']
     removed = set()
+    srets = [st.value.id for st in walk_local(gs.node) if isinstance(st, ast.Return) and isinstance(st.value, ast.Name)]
+    STV = srets[-1] if srets else 'state'
     for st in walk_local(gs.node):
         if isinstance(st, ast.Delete):
             for t in st.targets:
-                if isinstance(t, ast.Subscript) and is_name(t.value, 'state') and isinstance(t.slice, ast.Constant):
+                if isinstance(t, ast.Subscript) and is_name(t.value, STV) and isinstance(t.slice, ast.Constant):
                     removed.add(t.slice.value)
     cw = RC.methods['_create_worker']
+    pvs = [c.args[1].id for c in calls_in(cw.node) if last_attr(c) == 'recv_msg' and len(c.args) >= 2 and isinstance(c.args[1], ast.Name)]
+    SPV = pvs[0] if pvs else 'state_patches'
     injected = set()
     for st in walk_local(cw.node):
-        if isinstance(st, ast.Assign) and isinstance(st.value, ast.Dict) and is_name(st.targets[0], 'state_patches'):
+        if isinstance(st, ast.Assign) and isinstance(st.value, ast.Dict) and is_name(st.targets[0], SPV):
             for k in st.value.keys:
                 if isinstance(k, ast.Constant):
                     injected.add(k.value)
@@ -157,13 +178,13 @@ def run(ctx):
               f'the context helper does not inject {sorted(removed - injected)} (or `_socket`): a worker created in the context has no target/arguments/socket', where=loc(cw, cw.node))
     # values: the context's own target/args/kwargs
     for st in walk_local(cw.node):
-        if isinstance(st, ast.Assign) and isinstance(st.value, ast.Dict) and is_name(st.targets[0], 'state_patches'):
+        if isinstance(st, ast.Assign) and isinstance(st.value, ast.Dict) and is_name(st.targets[0], SPV):
             for k, v in zip(st.value.keys, st.value.values):
                 if isinstance(k, ast.Constant) and k.value in removed:
                     ctx.check('R2', f'patch `{k.value}` carries the context\'s own self.{k.value}', is_self_attr(v, k.value), 'RemoteContext._create_worker', f'patch-value:{k.value}={norm(v)}',
                               f'the context injects `{norm(v)}` as {k.value}: its workers do not execute the context\'s target with the context\'s defaults', where=loc(cw, st))
     # the patches are handed to recv_msg
-    ok = any(last_attr(c) == 'recv_msg' and len(c.args) >= 2 and is_name(c.args[1], 'state_patches') for c in calls_in(cw.node))
+    ok = any(last_attr(c) == 'recv_msg' and len(c.args) >= 2 and is_name(c.args[1], SPV) for c in calls_in(cw.node))
     ctx.check('R2', 'the patches are applied while the worker is received', ok, 'RemoteContext._create_worker', 'patches-not-applied', 'state_patches are not passed to recv_msg', where=loc(cw, cw.node))
     rb = RW.methods['_run_backend']
     tests = [st for st in walk_local(rb.node) if isinstance(st, ast.If) and 'hasattr(self,' in norm(st.test)]
@@ -175,19 +196,23 @@ def run(ctx):
     ctx.check('R2', 'the backend probes for an injected attribute before unpacking the payload', probe in removed, 'RemoteWorker._run_backend', f'backend-probe:{probe}',
               'the backend does not test for the attributes a context injects: the payload/patch decision is wrong', where=loc(rb, rb.node))
     # state with context has no payload: `if self._context is None: payload = ...`
-    ok = any(isinstance(st, ast.If) and norm(st.test) == 'self._context is None' and any("state['_payload']" in norm(x) for x in st.body) for st in walk_local(gs.node))
+    ok = any(isinstance(st, ast.If) and norm(st.test) == 'self._context is None' and any(f"{STV}['_payload']" in norm(x) for x in st.body) for st in walk_local(gs.node))
     ctx.check('R2', 'a worker created in a context ships no payload of its own', ok, 'RemoteWorker.__getstate__', 'payload-with-context', 'payload handling for context workers changed', where=loc(gs, gs.node))
     # the server hands the client socket to the context helper
-    hand = [c for c in calls_in(f.node) if last_attr(c) == 'call' and receiver(c) == 'ctx']
+    hand = [c for c in calls_in(f.node) if last_attr(c) == 'call' and receiver(c) == CTXV]
     ok = len(hand) == 1 and len(hand[0].args) == 1 and is_name(hand[0].args[0], cli)
     ctx.check('R2', 'the server hands the client socket to the context of that id', ok, 'RemoteServer.run', 'context-call', 'a worker-in-context request is not handed to the context helper', where=loc(f, f.node))
-    look = [st for st in walk_local(f.node) if isinstance(st, ast.Assign) and is_name(st.targets[0], 'ctx') and isinstance(st.value, ast.Call) and last_attr(st.value) == 'get'
+    look = [st for st in walk_local(f.node) if isinstance(st, ast.Assign) and is_name(st.targets[0], CTXV) and isinstance(st.value, ast.Call) and last_attr(st.value) == 'get'
             and st.value.args and is_name(st.value.args[0], idv)]
     ctx.check('R2', 'the context is looked up by the id sent by the client', bool(look), 'RemoteServer.run', 'context-lookup-key', 'the context is not looked up by the client-supplied id', where=loc(f, f.node))
 
     # ---------------------------------------------------------------- R4 client side
     ini = RC.methods['__init__']
-    ok = any(isinstance(st, ast.If) and norm(st.test) == 'not result' and any(isinstance(x, ast.Raise) and 'ValueError' in norm(x.exc) for x in st.body) for st in walk_local(ini.node))
+
+    def reply_var(fn):
+        vs = [st.targets[0].id for st in walk_local(fn.node) if isinstance(st, ast.Assign) and isinstance(st.targets[0], ast.Name) and isinstance(st.value, ast.Call) and last_attr(st.value) == 'recv_msg']
+        return vs[-1] if vs else 'result'
+    ok = any(isinstance(st, ast.If) and norm(st.test) == f'not {reply_var(ini)}' and any(isinstance(x, ast.Raise) and 'ValueError' in norm(x.exc) for x in st.body) for st in walk_local(ini.node))
     ctx.check('R4', 'RemoteContext.__init__: a False reply raises ValueError', ok, 'RemoteContext.__init__', 'duplicate-not-reported', 'a refused registration is not reported to the client as ValueError', where=loc(ini, ini.node))
     hdr = [c for c in calls_in(ini.node) if last_attr(c) == 'send_msg' and len(c.args) >= 2 and isinstance(c.args[1], ast.Tuple)]
     ok = bool(hdr) and norm(hdr[0].args[1]) == '(self._id, False)'
@@ -197,7 +222,7 @@ def run(ctx):
     hdr = [c for c in calls_in(td.node) if last_attr(c) == 'send_msg' and len(c.args) >= 2]
     ok = len(hdr) == 2 and norm(hdr[0].args[1]) == '(self._id, False)' and isinstance(hdr[1].args[1], ast.Constant) and hdr[1].args[1].value is None
     ctx.check('R4', 'delete sends the header (id, False) followed by None', ok, 'RemoteContext._try_del', 'delete-protocol', 'the delete request is not (id, False) followed by None', where=loc(td, td.node))
-    ok = any(isinstance(st, ast.Assign) and any(is_self_attr(t, '_alive') for t in st.targets) and norm(st.value) == 'not result' for st in walk_local(td.node))
+    ok = any(isinstance(st, ast.Assign) and any(is_self_attr(t, '_alive') for t in st.targets) and norm(st.value) == f'not {reply_var(td)}' for st in walk_local(td.node))
     ctx.check('R4', 'delete maps the reply to the alive flag', ok, 'RemoteContext._try_del', 'delete-reply', 'the reply of a delete is not recorded', where=loc(td, td.node))
     ok = any(isinstance(st, ast.Assign) and any(is_self_attr(t, '_alive') for t in st.targets) and isinstance(st.value, ast.Constant) and st.value.value is True and st in ini.node.body
              for st in walk_local(ini.node))
